@@ -250,6 +250,9 @@ var (
 	TypeNameHook   = func(tn *types.TypeName) string { return tn.Name() }
 	FuncNameHook   = func(f *types.Func) string { return f.Name() }
 	GlobalNameHook = func(o types.Object) string { return o.Name() }
+	// NewDeclHook: the function is declared in the analysed module but corresponds to no
+	// declaration of the baseline — it was introduced by a later edit.
+	NewDeclHook = func(f *types.Func) bool { return false }
 )
 
 // FuncFullName: "pkgpath.Name" or "(*pkgpath.T).Name", generic instances
@@ -735,6 +738,61 @@ func StructLitFields(a *ssa.Alloc) map[string]ssa.Value {
 		if v == nil {
 			delete(out, k)
 		}
+	}
+	return out
+}
+
+// StructLit: one place where a struct value is filled field by field: a
+// composite literal in a local (`k := T{…}`, base = the Alloc) or an element
+// of an array/slice literal (`[]T{{…}, {…}}`, base = the element's address).
+type StructLit struct {
+	Base   ssa.Value
+	Fields map[string]ssa.Value
+	Pos    token.Pos
+}
+
+// StructLits: the literals of struct types accepted by keep that fn builds.
+func StructLits(fn *ssa.Function, keep func(*types.Named) bool) []StructLit {
+	byBase := map[ssa.Value]*StructLit{}
+	var order []ssa.Value
+	Instrs(fn, func(in ssa.Instruction) {
+		fa, ok := in.(*ssa.FieldAddr)
+		if !ok || fa.Referrers() == nil {
+			return
+		}
+		switch fa.X.(type) {
+		case *ssa.Alloc, *ssa.IndexAddr:
+		default:
+			return
+		}
+		pt, ok := fa.X.Type().Underlying().(*types.Pointer)
+		if !ok {
+			return
+		}
+		named, ok := pt.Elem().(*types.Named)
+		if !ok || !keep(named) {
+			return
+		}
+		for _, r := range *fa.Referrers() {
+			st, ok := r.(*ssa.Store)
+			if !ok || st.Addr != ssa.Value(fa) {
+				continue
+			}
+			lit := byBase[fa.X]
+			if lit == nil {
+				lit = &StructLit{Base: fa.X, Fields: map[string]ssa.Value{}, Pos: fa.X.Pos()}
+				if lit.Pos == token.NoPos {
+					lit.Pos = fa.Pos()
+				}
+				byBase[fa.X] = lit
+				order = append(order, fa.X)
+			}
+			lit.Fields[fieldName(fa.X.Type(), fa.Field)] = st.Val
+		}
+	})
+	var out []StructLit
+	for _, b := range order {
+		out = append(out, *byBase[b])
 	}
 	return out
 }
